@@ -102,8 +102,28 @@ type history struct {
 }
 
 type obs struct {
-	Res []uint64
-	Out wz.Outcome
+	Res   []uint64
+	Out   wz.Outcome
+	Trace []string // the frames of the "wasm stack trace:" section of the error text, innermost first
+}
+
+// traceOf extracts the frame lines of the wasm stack trace from an error text.
+func traceOf(err error) []string {
+	if err == nil {
+		return nil
+	}
+	msg := err.Error()
+	i := strings.Index(msg, "wasm stack trace:")
+	if i < 0 {
+		return nil
+	}
+	var fr []string
+	for _, l := range strings.Split(msg[i:], "\n")[1:] {
+		if l = strings.TrimSpace(l); l != "" {
+			fr = append(fr, l)
+		}
+	}
+	return fr
 }
 
 func (o obs) String() string {
@@ -178,7 +198,10 @@ func newWorld(h *history, twin bool, names *[2]map[string]int) (*world, error) {
 				g := make(chan struct{})
 				w.entered <- g
 				<-g
-			}), nil, nil).Export("block").Instantiate(w.ctx)
+			}), nil, nil).Export("block").
+			NewFunctionBuilder().WithGoModuleFunction(api.GoModuleFunc(func(context.Context, api.Module, []uint64) {
+			panic("boom")
+		}), nil, nil).Export("boom").Instantiate(w.ctx)
 		if err != nil {
 			return nil, err
 		}
@@ -292,7 +315,7 @@ func (w *world) call(inst int, name string, args ...uint64) (o obs) {
 		return obs{Out: wz.Outcome{Kind: wz.KOther, Detail: "harness: no export " + name}}
 	}
 	res, err := f.Call(w.ctx, args...)
-	return obs{Res: res, Out: wz.Classify(err)}
+	return obs{Res: res, Out: wz.Classify(err), Trace: traceOf(err)}
 }
 
 // move fetches a reference from `from` and stores it into `to`; the reference itself is
